@@ -1,4 +1,4 @@
-// verif-replay pkg=./util property=C29 obligation=C29/bounded/EnsureRead verif-replay-tags=verif
+// verif-replay pkg=./util property=C29 obligation=bounded/EnsureRead verif-replay-tags=verif
 //
 // Bounded stand-in for the trusted contract of util.EnsureRead (it hands the
 // chunks over a channel from goroutines, which the verifier does not model):
